@@ -1179,3 +1179,76 @@ def run(ctx) -> None:  # noqa: F811
                     "of the quadrature integrator moved)")
 
     deferred.run(ctx, new, _inner_run_c08f)
+
+
+# ---- added after the seeded change C08-r6seed0: the padding margin bounds the cutoff of every species
+_inner_run_c08g = run
+
+MARGIN_SKIP_MODULES = ("abtem.visualize",)  # pad_atoms there only decorates a plot of the cell
+
+
+def _check_own_cutoff(ctx, rule: str) -> int:
+    """The table a finite-range integrator builds for one species extends to the cutoff of THAT species: the builder
+    pads with `cutoff(symbol)` of the species present, so a table built with the cutoff of another (fixed) species can
+    reach further than the margin."""
+    n = 0
+    for c in ctx.repo.all_classes():
+        if c.module.name != INTEGRALS or c.find_method("cutoff") is None:
+            continue
+        for defs in c.methods.values():
+            for f in defs:
+                ps = f.positional_params
+                if len(ps) < 2 or f.name == "cutoff":
+                    continue
+                df = None
+                for call in walk_no_nested(f.node):
+                    if not (isinstance(call, ast.Call) and isinstance(call.func, ast.Attribute) and call.func.attr == "cutoff"
+                            and isinstance(call.func.value, ast.Name) and call.func.value.id == ps[0] and len(call.args) == 1):
+                        continue
+                    df = df or DataFlow(f.node)
+                    at = df.cfg.node_of(_stmt_containing(f.node, call)).idx
+                    a = call.args[0]
+                    construct = f"{f.qualname}:cutoff of the species the table is built for"
+                    if isinstance(a, ast.Constant):
+                        n += 1
+                        ctx.violation(rule, construct, f.loc(call),
+                                      f"`{norm_text(call)}` takes the cutoff of the fixed species {a.value!r}, not of the "
+                                      "species the table is built for: the footprint can reach further than the padding "
+                                      "margin computed from the species present", key_detail="own-species")
+                    elif isinstance(a, ast.Name) and a.id in ps[1:] and all(
+                            d.kind == "param" for d in df.reaching(at, a.id)):
+                        n += 1
+                        ctx.ok(rule, construct, f.loc(call), f"`{norm_text(call)}` uses the method's own species parameter")
+                    else:
+                        ctx.info(rule, construct, f.loc(call), f"`{norm_text(call)}`: species argument not a plain parameter")
+    return n
+
+
+def run(ctx) -> None:  # noqa: F811
+    from ..rules import deferred, marginall
+
+    ctx.rule("R-MARGINALL", marginall.__doc__.split("\n\n", 1)[1].split("Abstract values:")[0] +
+             "The margin must be the maximum (max / np.max / sorted[-1] / a running maximum) over a collection that holds "
+             "one <integrator>.cutoff(species) for every species of the atoms — a comprehension / loop / dict over "
+             "np.unique(numbers) or an equivalent, with no filter and no selection of species by number, position, mass "
+             "or count.  A minimum, a mean, one element, the cutoff of one selected species, or the constant 0 where the "
+             "integrator may be finite, is a violation; so is a table of a finite-range integrator built with the cutoff "
+             "of a fixed species instead of its own")
+
+    def new():
+        repo = ctx.repo
+        pad = repo.function("abtem.atoms", "pad_atoms")
+        ctx.require("margins" in pad.params, "pad_atoms has no `margins` parameter any more")
+        cut = repo.modules["abtem.atoms"].functions.get("cut_cell")
+        sliced = repo.modules["abtem.slicing"].classes.get("SlicedAtoms") if "abtem.slicing" in repo.modules else None
+        ctx.require(any(c.own_method("cutoff") is not None and c.own_method("finite") is not None
+                        for c in repo.modules[INTEGRALS].classes.values()),
+                    "no integrator base class with .cutoff(symbol) and .finite found in abtem.integrals")
+        funcs = [f for f in repo.all_functions() if not f.module.name.startswith(MARGIN_SKIP_MODULES)
+                 and f.module.name != "abtem.atoms"]
+        n = marginall.check(ctx, "R-MARGINALL", funcs, pad, cut, sliced)
+        ctx.require(n >= 1, "R-MARGINALL: no pad_atoms call that generates the in-plane periodic images was found")
+        n2 = _check_own_cutoff(ctx, "R-MARGINALL")
+        ctx.require(n2 >= 1, "R-MARGINALL: no integrator table built from self.cutoff(symbol) found")
+
+    deferred.run(ctx, new, _inner_run_c08g)
